@@ -9,16 +9,16 @@
 (***************************************************************************)
 EXTENDS Naturals, Sequences, TLC, TLCExt, Json, IOUtils
 
-VARIABLE i
+VARIABLE tracePos
 
 TraceEvents == JsonDeserialize(IOEnv.TRACE_FILE)
 
-TraceInit == i = 0
+TraceInit == tracePos = 0
 
 TraceStep(V(_), D(_)) ==
-  /\ i < Len(TraceEvents)
-  /\ i' = i + 1
-  /\ LET e == TraceEvents[i + 1] IN PrintT(<<"V", e.id, V(e), D(e)>>)
+  /\ tracePos < Len(TraceEvents)
+  /\ tracePos' = tracePos + 1
+  /\ LET e == TraceEvents[tracePos + 1] IN PrintT(<<"V", e.id, V(e), D(e)>>)
 
 TraceAccepted == TLCGet("stats").diameter - 1 = Len(TraceEvents)
 
